@@ -134,6 +134,7 @@ def situation_labels(beh) -> set:
         if act == 'MutateCopy':
             out.add(f'M:{r["src"]}:{kinds[-1] if kinds else "-"}')
             continue
+        out.update(r.get('sit', ()))
         cur = f'{act}:{r["res"]}'
         if prev is not None:
             out.add(f'A:{kind}:{prev}>{cur}')
@@ -141,30 +142,41 @@ def situation_labels(beh) -> set:
     return out
 
 
-def select_covering(behs, num, seed):
-    """Greedy set cover over the situation labels (shortest behaviour first among equals), then a seeded random
-    fill up to `num` behaviours."""
+def select_covering(behs, num, seed, k=2):
+    """Greedy k-fold set cover over the situation labels (every label is covered by k different behaviours where the
+    pool has that many; shortest behaviour first among equals), then a seeded random fill up to `num` behaviours."""
     import random
     labs = [situation_labels(b) for b in behs]
-    left = set().union(*labs) if labs else set()
-    total = len(left)
+    need = {}
+    for ls in labs:
+        for x in ls:
+            need[x] = min(k, need.get(x, 0) + 1)
+    total = len(need)
     chosen, chosen_set = [], set()
     order = sorted(range(len(behs)), key=lambda i: len(behs[i]))
-    while left:
-        best = max(order, key=lambda i: (len(labs[i] & left), -len(behs[i])))
-        if not labs[best] & left:
+    while any(need.values()):
+        best, gain = None, 0
+        for i in order:
+            if i in chosen_set:
+                continue
+            g = sum(1 for x in labs[i] if need.get(x, 0) > 0)
+            if g > gain:
+                best, gain = i, g
+        if best is None:
             break
         chosen.append(best)
         chosen_set.add(best)
-        left -= labs[best]
+        for x in labs[best]:
+            if need.get(x, 0) > 0:
+                need[x] -= 1
     rest = [i for i in range(len(behs)) if i not in chosen_set]
     random.Random(seed).shuffle(rest)
     fill = rest[:max(0, num - len(chosen))]
-    return [behs[i] for i in chosen + fill], {'labels': total, 'cover': len(chosen), 'fill': len(fill),
+    return [behs[i] for i in chosen + fill], {'labels': total, 'fold': k, 'cover': len(chosen), 'fill': len(fill),
                                               'pool': len(behs)}
 
 
-def generate(run, num, depth, seed, cfg='Mdib_sim.cfg', module='MdibMC', pool=None):
+def generate(run, num, depth, seed, cfg='Mdib_sim.cfg', module='MdibMC', pool=None, fold=2):
     """`pool` behaviours are simulated by TLC; the ones replayed are chosen to cover every situation label of the pool
     (select_covering) and filled up to `num` at random (more than `num` if the cover needs more)."""
     pool = pool or max(num, run.pick(3000, 12000))
@@ -173,7 +185,7 @@ def generate(run, num, depth, seed, cfg='Mdib_sim.cfg', module='MdibMC', pool=No
     behs = json_lines(res.stdout, 'BEH')
     if len(behs) < pool // 2:
         raise MachineryError(f'expected about {pool} behaviours from TLC, got {len(behs)}')
-    behs, stats = select_covering(behs, num, seed)
+    behs, stats = select_covering(behs, num, seed, k=fold)
     run.note('situation_coverage', stats)
     return behs
 
